@@ -30,6 +30,8 @@ impl Property for C13 {
         let mut out = CaseOut::new();
         let mut cfg = expansion_cfg();
         cfg.allow_input_x = false;
+        cfg.omit_cols = true;
+        cfg.n_out = (1, 4);
         cfg.device_whiles = false;
         let built = gen_case(&mut Ch::new(&s[0]), &cfg);
         let text = built_text(&built);
